@@ -374,8 +374,8 @@ def distance(ctx, F):
     ok = len(rets) == 1 and is_call(rets[0], 'AffFuncBase::distance_raw') and rets[0][2] == (('param', 'self'), ('param', 'point'))
     # zip(self.mat.outer_iter(), raw.outer_iter_mut()): same row index; closure divides by the norm of that row
     zips = [R.call_args(bb) for bb, t in b.calls() if Callee(t['func']).name == 'zip']
-    okz = any(is_call(z[0], 'ArrayBase::outer_iter') and z[0][2][0] == ('field', ('param', 'self'), 'mat') and is_call(z[1], 'ArrayBase::outer_iter_mut') and
-              is_call(z[1][2][0], 'AffFuncBase::distance_raw') for z in zips)
+    okz = any(is_call(z[0], 'ArrayBase::outer_iter') and z[0][2][0] == ('field', ('param', 'self'), 'mat') and
+              ((is_call(z[1], 'ArrayBase::outer_iter_mut') and is_call(z[1][2][0], 'AffFuncBase::distance_raw')) or is_call(z[1], 'AffFuncBase::distance_raw')) for z in zips)
     norm_ok = False
     div_ok = False
     for cb in b.closure_bodies():
@@ -391,6 +391,19 @@ def distance(ctx, F):
             if Callee(t['func']).name == 'div_assign' and any(x == ('upvar', 'norm') for x in walk(Rc.call_args(bb)[1])):
                 div_ok = True
     sqrt = any(Callee(t['func']).name == 'sqrt' for bb, t in b.calls())
+    direct_div = []
+    for bb, t in b.calls():
+        if Callee(t['func']).name == 'div_assign' and not t.get('exp'):
+            a = R.call_args(bb)
+            # `*dist /= norm` on the zipped element itself
+            if a[0][0] == 'field' and a[0][2] == '1' and is_call(a[0][1], 'Iterator::next') and is_call(a[0][1][2][0], 'zip') and is_call(a[1], 'Float::sqrt', 'f64::sqrt'):
+                direct_div.append(bb)
+    if len(direct_div) == 1 and not div_ok:
+        div_ok = True
+        lits_d = [l for l in literals(b, R, direct_div[0]) if not (l[0] == 'is' and is_call(l[1], 'Iterator::next'))]
+        direct_uncond = not lits_d
+    else:
+        direct_uncond = None
     if not norm_ok:
         # the norm in another spelling (dot product, accumulator loop / fold, a shared helper): it must be the norm of the zipped row of A
         from .prune import l2_norm_row
@@ -408,7 +421,7 @@ def distance(ctx, F):
         if Callee(t['func']).name == 'map_inplace':
             lits = [l for l in literals(b, R, bb) if not (l[0] == 'is' and is_call(l[1], 'Iterator::next'))]
             uncond = not lits
-    div_ok = div_ok and uncond
+    div_ok = div_ok and (uncond if direct_uncond is None else direct_uncond)
     if ok and okz and norm_ok and div_ok and sqrt:
         ctx.ok('C14.R1', 'AffFuncBase::distance', 'row i of b - A·p divided by sqrt(sum of squares of row i of A)', b.span)
     else:
